@@ -696,6 +696,16 @@ example : (ModuleTree.apply {} 50 restoreDemo (.name "state")
       ⟨["state"], [(["state", "c", "g", "count"], .tensor [] [0])]⟩ [] 1).result
     = .ok (11, ⟨["state"], [(["state", "c", "g", "count"], .tensor [] [11])]⟩) := by decide +kernel
 
+/-- `apply_input_frame` / `returned_keys_exact` on an EMPTY mutable collection (`{'stats': {}}` placeholder before the
+first stateful step): `_unfreeze_variables` copies it like any other selected collection (ownership flag true), so
+the variable created during the call lands in the scope's copy — returned, not written into the caller's dict -/
+example :
+    let o := ModuleTree.apply {} 10 (.seq (.var "stats" "cnt" [] (.const 0)) (.seq (.put "stats" [] "cnt" (.add (.loc 0) (.const 1))) (.ret (.loc 0))))
+      (.name "stats") ⟨["stats"], []⟩ [] 7
+    o.result = .ok (0, ⟨["stats"], [(["stats", "cnt"], .tensor [] [1])]⟩) ∧ o.final.dirty = false ∧
+      o.final.cols = [("stats", true)] ∧ callerLookup ⟨["stats"], []⟩ o ["stats", "cnt"] = none := by
+  decide +kernel
+
 /-- hypotheses of `perturb_absent_identity` -/
 example : modulePerturb [] "perturbations" "p" 7 [] (Scope.bind .ff demoV []) = (.ok (7, []), Scope.bind .ff demoV []) := by
   decide +kernel
